@@ -161,12 +161,26 @@ int main(int argc, char **argv) {
     uint64_t seed = argc > 2 ? strtoull(argv[2], NULL, 10) : 1;
     int iters = argc > 3 ? atoi(argv[3]) : 200;
     if (nt > 64) nt = 64;
+    // mode: "both" (sequential reference first, then the threads, in one process), "par" (threads only: the
+    // process's very first library calls are concurrent, so lazily initialised state is first touched by several
+    // threads at once), "seq" (sequential only); "par" and "seq" print the per-job hashes for comparison across
+    // processes
+    const char *mode = argc > 4 ? argv[4] : "both";
     Job seq[64], par[64]; pthread_t th[64];
-    for (int t = 0; t < nt; t++) { seq[t].seed = seed * 1000 + t; seq[t].iters = iters; seq[t].result = workload(seq[t].seed, iters); }
-    for (int t = 0; t < nt; t++) { par[t].seed = seed * 1000 + t; par[t].iters = iters; pthread_create(&th[t], NULL, runner, &par[t]); }
-    for (int t = 0; t < nt; t++) pthread_join(th[t], NULL);
+    int doseq = strcmp(mode, "par") != 0, dopar = strcmp(mode, "seq") != 0;
+    if (doseq) for (int t = 0; t < nt; t++) { seq[t].seed = seed * 1000 + t; seq[t].iters = iters; seq[t].result = workload(seq[t].seed, iters); }
+    if (dopar) {
+        for (int t = 0; t < nt; t++) { par[t].seed = seed * 1000 + t; par[t].iters = iters; pthread_create(&th[t], NULL, runner, &par[t]); }
+        for (int t = 0; t < nt; t++) pthread_join(th[t], NULL);
+    }
     int bad = 0;
-    for (int t = 0; t < nt; t++) if (seq[t].result != par[t].result) { printf("mismatch thread=%d seed=%llu\n", t, (unsigned long long)par[t].seed); bad = 1; }
-    if (!bad) printf("ok threads=%d iters=%d\n", nt, iters);
+    if (doseq && dopar) {
+        for (int t = 0; t < nt; t++) if (seq[t].result != par[t].result) { printf("mismatch thread=%d seed=%llu\n", t, (unsigned long long)par[t].seed); bad = 1; }
+        if (!bad) printf("ok threads=%d iters=%d\n", nt, iters);
+    } else {
+        printf("hashes");
+        for (int t = 0; t < nt; t++) printf(" %016llx", (unsigned long long)(doseq ? seq[t].result : par[t].result));
+        printf("\n");
+    }
     return bad;
 }
